@@ -167,6 +167,21 @@ def run_history(ctx, mods, base, static0, hist):
                                           f"deactivated activation remain in force",
                                           dict(w, steps=list(steps), leaked=leaked))
                             return
+            if CUSTOM_BASE_PARAM and op.startswith("inst:"):
+                # optional feature (absent from the pinned tree, exercised when a tree has it): a caller-supplied base
+                # allowlist.  Additions given to one instance must not stay in that base for the next instance.
+                hardened = {m: ml.ML_ALLOWLIST[m] for m in ("collections", "argparse") if m in ml.ML_ALLOWLIST}
+                kw = {CUSTOM_BASE_PARAM: hardened}
+                data = PROBES["collections.Counter"]
+                first = outcome(lambda: ml.FicklingMLUnpickler(io.BytesIO(data), also_allow=["collections.Counter"], **kw).load(), U)
+                second = outcome(lambda: ml.FicklingMLUnpickler(io.BytesIO(data), **kw).load(), U)
+                agg.count("custom_base_probes", 2)
+                if first != "allowed" or second != "blocked":
+                    agg.violation("instance-allowlist:leak-through-custom-base",
+                                  f"two unpickler instances sharing a caller-supplied base allowlist: with the addition "
+                                  f"collections.Counter is {first}, the next instance without additions finds it {second}",
+                                  dict(w, steps=list(steps)))
+                    return
             agg.count("snapshots_compared")
             if ml.ML_ALLOWLIST != base:
                 extra = {m: sorted(set(v) - set(base.get(m, {}))) for m, v in ml.ML_ALLOWLIST.items()
@@ -191,9 +206,17 @@ def run_history(ctx, mods, base, static0, hist):
         agg.case(key, nontrivial, {"history": hist})
 
 
+CUSTOM_BASE_PARAM = None
+
+
 def setup():
+    global CUSTOM_BASE_PARAM
+    import inspect
     import fickling  # noqa: F401
     import fickling.ml as ml
+    for name in inspect.signature(ml.FicklingMLUnpickler.__init__).parameters:
+        if name not in ("self", "file", "also_allow", "args", "kwargs") and "allow" in name:
+            CUSTOM_BASE_PARAM = name
     import fickling.hook as hook
     import fickling.analysis as analysis
     import fickling.fickle as f
